@@ -40,36 +40,47 @@ structure TState where
 def getS (l : List (String × Nat)) (k : String) : Nat := ((l.find? (·.1 == k)).map (·.2)).getD 0
 def setS (l : List (String × Nat)) (k : String) (v : Nat) : List (String × Nat) := l.map (fun p => if p.1 == k then (k, v) else p)
 
-def taxReport (lostMapped : Bool) (period : Int) (templateRows : Nat) (cs : List Computed) : Except String (List TRow × List String) := do
-  let st0 : TState := { idx := allSheets.map (·, 7), cap := allSheets.map (·, templateRows) }
-  let (rows, st) ← cs.foldlM (fun (acc : List TRow × TState) c => do
-    -- append_rows(MIN_ROWS + count + 1) per type of every sheet
-    let cap := acc.2.cap.map fun (s, n) =>
-      (s, n + ((typesOf lostMapped s).map fun t => 20 + (c.fracs.filter (fun f => f.f.ev.typ == t)).length + 1).foldl (· + ·) 0)
-    let (rs, idx) ← c.fracs.foldlM (fun (a : List TRow × List (String × Nat)) n => do
-      match sheetOf lostMapped n.f.ev.typ with
-      | none => throw s!"KeyError: {n.f.ev.typ.name}"
-      | some s =>
-        let r := getS a.2 s
-        if r ≥ getS cap s then throw "IndexError: tax report sheet too small"
-        let row : TRow :=
-          { sheet := s
-            row := r + 1
-            asset := c.asset
-            amt := ofUnits n.f.amt
-            proceeds := n.f.proceeds
-            cost := n.f.lot.map (fun _ => n.f.cost)
-            gain := n.f.gain
-            long := n.f.isLong period
-            sold := civilFromDays n.f.ev.ts.day
-            acquired := n.f.lot.map (fun l => civilFromDays l.ts.day)
-            evK := n.evK + 1
-            evN := n.evN
-            lotK := n.lotK.map (· + 1)
-            lotN := n.lotN }
-        pure (a.1 ++ [row], setS a.2 s (r + 1))) ([], acc.2.idx)
-    pure (acc.1 ++ rs, { idx, cap })) ([], st0)
-  -- sheets that received no row are removed
-  pure (rows, allSheets.filter (fun s => getS st.idx s ≠ 7))
+def mkTRow (period : Int) (asset : String) (sheet : String) (r : Nat) (n : Numbered) : TRow :=
+  { sheet
+    row := r + 1
+    asset
+    amt := ofUnits n.f.amt
+    proceeds := n.f.proceeds
+    cost := n.f.lot.map (fun _ => n.f.cost)
+    gain := n.f.gain
+    long := n.f.isLong period
+    sold := civilFromDays n.f.ev.ts.day
+    acquired := n.f.lot.map (fun l => civilFromDays l.ts.day)
+    evK := n.evK + 1
+    evN := n.evN
+    lotK := n.lotK.map (· + 1)
+    lotN := n.lotN }
+
+/-- the fractions of all assets in generation order, each with its asset -/
+def allFracs (cs : List Computed) : List (String × Numbered) := cs.flatMap (fun c => c.fracs.map (fun n => (c.asset, n)))
+
+/-- routing with one row counter per sheet shared by all assets: every fraction gets the next free row of the sheet of its type
+    (fractions whose type has no sheet are skipped here and make the generator fail, see `taxReport`) -/
+def routeFracs (lostMapped : Bool) (period : Int) : List (String × Nat) → List (String × Numbered) → List TRow × List (String × Nat)
+  | idx, [] => ([], idx)
+  | idx, (a, n) :: t =>
+    match sheetOf lostMapped n.f.ev.typ with
+    | none => routeFracs lostMapped period idx t
+    | some s =>
+      let r := getS idx s
+      let (rows, idx') := routeFracs lostMapped period (setS idx s (r + 1)) t
+      (mkTRow period a s r n :: rows, idx')
+
+/-- rows available on a sheet after `append_rows(MIN_ROWS + count + 1)` for every type of the sheet and every asset so far -/
+def capacityAfter (lostMapped : Bool) (templateRows : Nat) (cs : List Computed) (s : String) : Nat :=
+  templateRows + (cs.map fun c => ((typesOf lostMapped s).map fun t => 20 + (c.fracs.filter (fun f => f.f.ev.typ == t)).length + 1).foldl (· + ·) 0).foldl (· + ·) 0
+
+/-- `tax_report_us/ie.generate`: fails with a `KeyError` when a fraction's type has no sheet (F11: LOST in the shipped IE map) and
+    with an `IndexError` if a sheet were too small; otherwise every fraction is written and unused sheets are removed -/
+def taxReport (lostMapped : Bool) (period : Int) (templateRows : Nat) (cs : List Computed) : Except String (List TRow × List String) :=
+  if (allFracs cs).any (fun p => (sheetOf lostMapped p.2.f.ev.typ).isNone) then .error "KeyError: transaction type without a sheet" else
+  let (rows, idx) := routeFracs lostMapped period (allSheets.map (·, 7)) (allFracs cs)
+  if rows.any (fun r => decide (capacityAfter lostMapped templateRows cs r.sheet < r.row)) then .error "IndexError: tax report sheet too small" else
+  .ok (rows, allSheets.filter (fun s => getS idx s ≠ 7))
 
 end Rp2
